@@ -842,4 +842,81 @@ theorem resultBlockData_real (o : Out) (d : Bytes) :
   · simp [h1]
   · by_cases h2 : o.arbRemaining - d.length = 0 <;> simp [h1, h2, writeData, bump]
 
+/-! ### SCPI_ResultError (not reachable from handler scripts; kept for completeness)
+
+Its second item (the quoted string) is closed without incrementing output_count; the invariant
+survives because the integer before it already made output_count positive. -/
+
+theorem errPartLoop_ind (P : Out → Prop) (hP : ∀ o d, P o → P (writeData o d)) :
+    ∀ (fuel : Nat) (o : Out) (d : Bytes) (len lim : Nat), P o → P (errPartLoop fuel o d len lim).1 := by
+  intro fuel
+  induction fuel with
+  | zero => intro o d len lim h; exact h
+  | succ fuel ih =>
+    intro o d len lim h
+    unfold errPartLoop
+    split
+    · exact h
+    · dsimp only
+      split
+      · exact h
+      · exact ih _ _ _ _ (hP _ _ (hP _ _ h))
+
+theorem errParts_ind (P : Out → Prop) (hP : ∀ o d, P o → P (writeData o d)) :
+    ∀ (ps : List (Option Bytes)) (i : Nat) (o : Out) (lim : Nat), P o → P (errParts i ps o lim) := by
+  intro ps
+  induction ps with
+  | nil => intro i o lim h; unfold errParts; exact h
+  | cons p ps ih =>
+    intro i o lim h
+    unfold errParts
+    split
+    · exact h
+    · split
+      · exact h
+      · dsimp only
+        apply ih
+        apply hP
+        apply errPartLoop_ind P hP
+        split
+        · dsimp only
+          split
+          · exact hP _ _ h
+          · exact h
+        · exact h
+
+/-- closing a ghost item without counting it, when the unit already has a finished item -/
+theorem closeGhost_st {o : Out} (hs : St pre U f F true o) (hi : o.gPartial = true ∨ o.gItems ≠ []) :
+    OSt pre U f F { o with gItems := o.gItems ++ [o.gCur], gCur := [] } := by
+  apply St.of_closed
+  rcases hs with hp | hs
+  · exact Or.inl hp
+  rcases hi with hp | hi
+  · exact Or.inl hp
+  right
+  simp only [if_true] at hs
+  simp only [Bool.false_eq_true, if_false]
+  obtain ⟨hu, hf, hfl, hnn, hpos, hwr⟩ := hs
+  have h0 := hpos.2 hi
+  refine ⟨hu, hf, hfl, rfl, ?_, ?_, ?_⟩
+  · simp [h0]
+  · simp; omega
+  · simp only [hwr, joinSep_snoc]
+    simp [hi]
+
+theorem resultError_st {o : Out} (code : Int) (desc : Bytes) (parts : List (Option Bytes))
+    (h : OSt pre U f F o) : OSt pre U f F (resultError o code desc parts) := by
+  unfold resultError
+  dsimp only
+  -- after the integer item and the delimiter: open, with a finished item
+  let P : Out → Prop := fun o => St pre U f F true o ∧ (o.gPartial = true ∨ o.gItems ≠ [])
+  have hP : ∀ o d, P o → P (writeData o d) := fun o d h => ⟨writeData_st d h.1, h.2⟩
+  have h0 : P (writeDelimiter (resultIntBaseSign o 32
+      (if code < 0 then (2^32 - code.natAbs) else code.toNat) 10 true)) := by
+    refine ⟨writeDelimiter_st (resultIntBaseSign_st _ _ _ _ h), Or.inr ?_⟩
+    simp [resultIntBaseSign, bump]
+  have h1 := hP _ [34] (errParts_ind P hP (some desc :: parts) 0 _
+    Gen.SCPI_STD_ERROR_DESC_MAX_STRING_LENGTH.toNat (hP _ [34] h0))
+  exact closeGhost_st h1.1 h1.2
+
 end ScpiVerif.Lemmas.Framing
